@@ -5,7 +5,8 @@
      hasHeaderValue, the `Connection` branch + epilogue of RequestHeader.parseHeaders (req_conn_flag) and of
      ResponseHeader.parseHeaders (resp_conn_flag), header.SetConnectionClose / ResetConnectionClose /
      ResponseHeader.setSpecialHeader(Connection) / setNonSpecial (the rhdr operations), the Connection
-     lines ResponseHeader.AppendBytes writes (rhdr_written), transport.RoundTrip's closeConn (client_close_conn).
+     lines ResponseHeader.AppendBytes writes (rhdr_written), transport.RoundTrip's closeConn (client_close_conn),
+     pipelineConnClient.reader's closeConn (pipeline_conn_ids).
 
    No proofs here (Proof/ConnOptProof.v). *)
 From FH Require Import Model.Base Gen.GenC10.
@@ -78,6 +79,17 @@ Definition resp_conn_flag (noHTTP11 identity_close : bool) (vals : list bytes) :
 (* ---- transport.RoundTrip: closeConn := resetConnection || req.ConnectionClose() || resp.ConnectionClose() ---- *)
 Definition client_close_conn (resetConnection req_close resp_close : bool) : bool :=
   resetConnection || req_close || resp_close.
+
+(* ---- pipelineConnClient.reader / worker (PipelineClient): after a response has been read,
+   `closeConn := w.resp.ConnectionClose()`; the caller is signalled and, when closeConn, the reader returns: the
+   worker closes the connection and the next request starts a worker with a fresh connection.
+   flags = ConnectionClose() of the successive responses; result = the connection (numbered from id) each
+   of the sequential requests is written on. ---- *)
+Fixpoint pipeline_conn_ids (id : Z) (flags : list bool) : list Z :=
+  match flags with
+  | [] => []
+  | f :: r => id :: pipeline_conn_ids (if f then (id + 1)%Z else id) r
+  end.
 
 (* ---- server side: the Connection part of a ResponseHeader under the handler's operations ----
    rh_close = header.connectionClose; rh_conn = the (at most one) Connection entry of h.h:
